@@ -321,3 +321,112 @@ Proof.
   - (* 0 *) unfold Kv. rewrite (sem_c0 T v Hv _ Hc), Hok. done.
   - (* 1 *) unfold Kv. rewrite (sem_c0 T v Hv _ Hc), Hok. done.
 Qed.
+
+(* ================= Kleene evaluation is sound for every completion of the X values ================= *)
+Definition refines1 (k : tern) (b : bool) : Prop := k = TX ∨ k = B b.
+Lemma kop_refines t a b x y : refines1 a x → refines1 b y → refines1 (k_op t a b) (g_op t x y).
+Proof. unfold refines1. intros [-> | ->] [-> | ->]; destruct t, x, y; simpl; auto. Qed.
+Lemma knot_refines a x : refines1 a x → refines1 (knot a) (negb x).
+Proof. unfold refines1. intros [-> | ->]; destruct x; simpl; auto. Qed.
+Lemma kgate_refines t (k : kval) (w : val) (l : list string) : (∀ p, p ∈ l → refines1 (k p) (w p)) →
+  refines1 (kgate t (k <$> l)) (xorb (g_inv t) (foldr (g_op t) (g_unit t) (w <$> l))).
+Proof.
+  intros H. assert (Hf : refines1 (foldr (k_op t) (B (g_unit t)) (k <$> l)) (foldr (g_op t) (g_unit t) (w <$> l))).
+  { induction l as [|a l IH]; [by right|]. rewrite !fmap_cons. cbn [foldr]. apply kop_refines.
+    - apply H. by left.
+    - apply IH. intros p Hp. apply H. by right. }
+  unfold kgate. destruct (g_inv t); simpl.
+  - by apply knot_refines.
+  - by destruct (foldr (g_op t) _ _).
+Qed.
+
+(* the only free nodes are primary inputs (true of lint-clean blackbox-free circuits without x) *)
+Definition only_inputs_free (c : circuit) : Prop := map_Forall (λ _ i, is_free i = true → n_ty i = Input) c.
+
+Theorem kleene_sound c (k : kval) (w : val) : closed c → acyclic c → only_inputs_free c →
+  kconsistent c k → consistent c w →
+  (∀ n, n ∈ inputs c → refines1 (k n) (w n)) →
+  ∀ n, n ∈ dom c → refines1 (k n) (w n).
+Proof.
+  intros Hcl [rank Hrank] Hfree Hk Hw Hin.
+  assert (∀ r n, rank n = r → n ∈ dom c → refines1 (k n) (w n)) as Haux; [|by intros n; eapply Haux].
+  intros r. induction (lt_wf r) as [r _ IH]. intros n <- Hd.
+  apply elem_of_dom in Hd as [i Hn].
+  pose proof (Hk n i Hn) as H1. pose proof (Hw n i Hn) as H2. unfold knode_ok in H1. unfold node_ok in H2.
+  destruct (is_free i) eqn:Hf.
+  - apply Hin. apply elem_of_inputs. exists i. split; [done|]. by eapply Hfree.
+  - assert (Hg : ∀ t, refines1 (kgate t (k <$> elements (n_fi i))) (gate_val t w (n_fi i))).
+    { intros t. apply kgate_refines. intros p Hp%elem_of_elements.
+      eapply (IH (rank p)); [eapply Hrank; eauto|done|]. eapply Hcl; eauto. }
+    unfold is_free in Hf.
+    destruct (n_ty i); try done; try (rewrite H1, H2; apply Hg); rewrite H1, H2; by right.
+Qed.
+
+(* corollary: where the companion is 0 the node carries its value under every completion of the X inputs *)
+Theorem tern_shape_completion c T μ (v w : val) : tern_shape c T μ → closed c → acyclic c → only_inputs_free c →
+  consistent T v → consistent c w →
+  (∀ i, i ∈ inputs c → v (mu_at μ i) = false → w i = v i) →
+  ∀ n, n ∈ dom c → v (mu_at μ n) = false → w n = v n.
+Proof.
+  intros Hs Hcl Hac Hfree Hv Hw Hin n Hn Hx.
+  pose proof (kleene_sound c (kof μ v) w Hcl Hac Hfree (tern_shape_sound c T μ Hs v Hv) Hw) as H.
+  assert (Hi : ∀ i, i ∈ inputs c → refines1 (kof μ v i) (w i)).
+  { intros i Hi. unfold kof. destruct (v (mu_at μ i)) eqn:E; [by left|]. right. by rewrite (Hin i Hi E). }
+  specialize (H Hi n Hn). unfold kof in H. rewrite Hx in H. destruct H as [H|H]; [by destruct (v n)|].
+  by destruct (v n), (w n).
+Qed.
+
+(* structural facts carried by the gadget structure *)
+Lemma tern_shape_sub c T μ : tern_shape c T μ → c ⊆ T.
+Proof.
+  intros (_ & Hall & _). apply map_subseteq_spec. intros n i Hn. by destruct (Hall n i Hn).
+Qed.
+Lemma shapeb_spec c T μ : shapeb c T μ = true ↔ tern_shape c T μ.
+Proof. apply bool_decide_eq_true. Qed.
+
+(* executable Kleene evaluation is THE Kleene-consistent valuation when its certificate holds *)
+Lemma knode_okb_spec k n i : knode_okb k n i = true ↔ knode_ok k n i.
+Proof. unfold knode_okb, knode_ok. destruct (n_ty i); rewrite ?bool_decide_eq_true; done. Qed.
+Lemma kconsistentb_spec c k : kconsistentb c k = true ↔ kconsistent c k.
+Proof.
+  unfold kconsistentb, kconsistent. rewrite forallb_forall. split.
+  - intros H n i Hn. apply knode_okb_spec. apply (H (n, i)). by apply elem_of_list_In, elem_of_map_to_list.
+  - intros H [n i] Hin. apply knode_okb_spec, H. by apply elem_of_map_to_list, elem_of_list_In.
+Qed.
+Theorem kconsistent_unique c (k k' : kval) : closed c → acyclic c → kconsistent c k → kconsistent c k' →
+  (∀ n, n ∈ inputs c → k n = k' n) → (∀ n i, c !! n = Some i → n_ty i ≠ BbOut) → ∀ n, n ∈ dom c → k n = k' n.
+Proof.
+  intros Hcl [rank Hrank] Hk Hk' Hin Hbb.
+  assert (∀ r n, rank n = r → n ∈ dom c → k n = k' n) as Haux; [|by intros n; eapply Haux].
+  intros r. induction (lt_wf r) as [r _ IH]. intros n <- Hd.
+  apply elem_of_dom in Hd as [i Hn].
+  pose proof (Hk n i Hn) as H1. pose proof (Hk' n i Hn) as H2. unfold knode_ok in *.
+  assert (Hg : ∀ t, kgate t (k <$> elements (n_fi i)) = kgate t (k' <$> elements (n_fi i))).
+  { intros t. f_equal. apply list_fmap_ext. intros ? p Hp%elem_of_list_lookup_2%elem_of_elements.
+    eapply (IH (rank p)); [eapply Hrank; eauto|done|]. eapply Hcl; eauto. }
+  pose proof (Hbb n i Hn) as Hb.
+  destruct (n_ty i) eqn:Et; try done; try (rewrite H1, H2; apply Hg); try congruence.
+  apply Hin. apply elem_of_inputs. eauto.
+Qed.
+
+(* ================= what is proved about the model itself ================= *)
+Lemma lookup_mapping c n m : mapping c !! n = Some m ↔ n ∈ dom c ∧ m = mu_name c n.
+Proof.
+  unfold mapping. rewrite lookup_set_to_map; [|naive_solver]. split.
+  - intros (y & Hy & [= -> ->]). done.
+  - intros [Hn ->]. eauto.
+Qed.
+Lemma dom_mapping c : dom (mapping c) = dom c.
+Proof.
+  apply set_eq. intros n. rewrite elem_of_dom. split.
+  - intros [m Hm%lookup_mapping]. tauto.
+  - intros Hn. exists (mu_name c n). by apply lookup_mapping.
+Qed.
+Lemma ternary_ok_inv T C nodes fo R μ : ternary_with T C nodes fo = Ok (R, μ) →
+  c_bbs C = ∅ ∧ orders_ok (c_g C) nodes fo = true ∧ μ = mapping (c_g C) ∧ c_bbs R = c_bbs C ∧ c_name R = c_name C
+  ∧ run T (c_g C) fo (c_g C) nodes = Ok (c_g R).
+Proof.
+  unfold ternary_with. destruct (bool_decide (c_bbs C = ∅)) eqn:Eb; [|done]. apply bool_decide_eq_true in Eb.
+  destruct (orders_ok _ _ _) eqn:Eo; [|done]. simpl.
+  destruct (run _ _ _ _ _) as [t| | |]; simpl; try done. intros [= <- <-]. done.
+Qed.
